@@ -105,7 +105,8 @@ def main():
         dst = os.path.join(HERE, a.save)
         os.makedirs(dst, exist_ok=True)
         for f in ('patch.diff', 'demo.py'):
-            shutil.copy(os.path.join(src, f), os.path.join(dst, f))
+            if os.path.abspath(os.path.join(src, f)) != os.path.abspath(os.path.join(dst, f)):
+                shutil.copy(os.path.join(src, f), os.path.join(dst, f))
         meta['verified_by_seedcheck'] = {k: v for k, v in res.items() if k != 'patch'}
         meta['ran'] = ['tools/seedcheck.py: demo without/with the patch, full test suite with the patch, ./check <props> %s with FALCON_REPO=<scratch worktree>' % a.tier]
         with open(os.path.join(dst, 'meta.json'), 'w') as f:
